@@ -2,6 +2,7 @@
 package pat
 
 import (
+	"fmt"
 	"strings"
 
 	"tdxlint/internal/flow"
@@ -226,4 +227,19 @@ func All(ms ...M) M {
 		}
 		return true
 	}
+}
+
+// IntLe matches x <= c on an integer, also written x < c+1 (either operand order).
+func IntLe(x M, c int64) M {
+	return OneOf(Bin("<=", x, Const(fmt.Sprint(c))), Bin("<", x, Const(fmt.Sprint(c+1))))
+}
+
+// IntGe matches x >= c on an integer, also written x > c-1 (either operand order).
+func IntGe(x M, c int64) M {
+	return OneOf(Bin("<=", Const(fmt.Sprint(c)), x), Bin("<", Const(fmt.Sprint(c-1)), x))
+}
+
+// NonEmpty matches len(x) != 0 in any of its integer spellings (0 < len, 1 <= len).
+func NonEmpty(x M) M {
+	return OneOf(Bin("!=", Len(x), Const("0")), Bin("<", Const("0"), Len(x)), Bin("<=", Const("1"), Len(x)))
 }
